@@ -46,6 +46,7 @@ int_str_ok = z3.Function("int_str_ok", z3.StringSort(), z3.BoolSort())
 str_lower = z3.Function("str_lower", z3.StringSort(), z3.StringSort())
 str_upper = z3.Function("str_upper", z3.StringSort(), z3.StringSort())
 str_strip = z3.Function("str_strip", z3.StringSort(), z3.StringSort())
+str_count = z3.Function("str_count", z3.StringSort(), z3.StringSort(), z3.IntSort())  # occurrences of a substring (axioms at the use site)
 obj_eq = z3.Function("obj_eq", Val, Val, z3.BoolSort())  # == on heap objects (A-eq: reflexive, symmetric)
 len_of_obj = z3.Function("len_of_obj", z3.IntSort(), z3.IntSort())  # len() of list/dict objects
 type_name = z3.Function("type_name", Val, z3.StringSort())  # type(v).__name__
